@@ -16,7 +16,7 @@ def run(ctx):
         ctx.configs.append(lib["desc"])
         exe = build.build_prog("c07", ["harness/c07.c", "harness/cpp_shim.cpp", "harness/sysrand.c", "ref/ref.c"], lib, opt="-O2")
         for m in MACHINES:
-            jobs.append((exe, [m, 1 if ctx.thorough else 0], be))
+            jobs.append((exe, [m, 2 if ctx.thorough else 0], be))
     res = common.parallel(lambda j: common.run_harness(ctx, j[0], j[1], label=j[2]), jobs)
     common.align_jobs(ctx, jobs, lambda j: j[2] in ("asm", "c32", "generic") and j[1][0] not in ("cppcopy",))
     for (rc, out, err), j in zip(res, jobs):
